@@ -350,6 +350,16 @@ def width_groups(prog):
         for a in tl[1:]:
             union(tl[0], a)
         ties[op['out']] = t
+    # a layer invoked more than once has one input mask: the tensors feeding its call sites share
+    # their width group
+    first_src = {}
+    for op in prog['ops']:
+        if op['op'] in ('conv', 'lin'):
+            f = first_src.setdefault(op['name'], op['src'])
+            if f != op['src']:
+                ta, tb = list(ties[f]), list(ties[op['src']])
+                if ta and tb:
+                    union(ta[0], tb[0])
     out_t = ties[prog['out']]
     for a in out_t:
         union('@output', a)
